@@ -455,7 +455,7 @@ def apply_op(solver, rec, op, k, case_tag):
     elif o == "SetTermination":
         solver.SetTermination(make_term(op["term"]))
     elif o == "SetEvalMonitor":
-        solver.SetEvaluationMonitor(Monitor(), new=op["new"])
+        solver.SetEvaluationMonitor(solver._evalmon if op.get("same") else Monitor(), new=op["new"])
     elif o == "SetStepMonitor":
         solver.SetGenerationMonitor(Monitor(), new=op["new"])
     elif o == "SetRandomInitialPoints":
@@ -628,7 +628,8 @@ def script_coq(case, out):
         elif o == "SetTermination":
             ops.append("@OSetTermination NumF _ %s" % term_coq(op["term"]))
         elif o == "SetEvalMonitor":
-            ops.append("@OSetEvalMonitor NumF _ %s" % blit(op["new"]))
+            # the monitor already in use handed over again: nothing is prepended to itself, the cost is not rebound
+            ops.append("@OSameEvalMonitor NumF _" if op.get("same") else "@OSetEvalMonitor NumF _ %s" % blit(op["new"]))
         elif o == "SetStepMonitor":
             ops.append("@OSetStepMonitor NumF _ %s" % blit(op["new"]))
         elif o in ("SetRandomInitialPoints", "SetInitialPoints"):
